@@ -1,4 +1,4 @@
-HOOK_COMMITS = ['87f9882', '1c3dfe2', '0d56a89', 'ee6a5bf', 'c3a75ff', 'a05dd9c', '30eebd5']
+HOOK_COMMITS = ['87f9882', '1c3dfe2', '0d56a89', 'ee6a5bf', 'c3a75ff', 'a05dd9c', '30eebd5', 'f4ed4c5']
 
 TEXTS = {
     "C18": {
